@@ -10,6 +10,9 @@ SETS = {
     "small":  (8, 0.2, 2.7, 3.0, 2.0),
     "medium": (24, 0.05, 2.90, 2.995, 5.0),
     "steep":  (40, 0.02, 2.98, 3.034, 9.0),
+    # the smallest tables the format allows (2 samples is the loaders' lower limit)
+    "tiny2":  (2, 0.5, 2.0, 3.0, 1.0),
+    "tiny3":  (3, 0.3, 2.4, 3.0, 2.0),
 }
 for name, (n, emin, emax, q, k) in SETS.items():
     step = (emax - emin) / (n - 1)
